@@ -2761,6 +2761,33 @@ class StateEngine(object):
                 Each nested Map or Parallel state can append to the "Branch"
                 list, which behaves like a stack.
                 """
+                if len(state.get("Branches", [])) == 0:
+                    """
+                    With no Branches to launch nothing would ever trigger
+                    asl_state_collect_results, so (as the Map state does for
+                    an empty array of items) complete at once with an empty
+                    result array.
+                    """
+                    result = evaluate_payload_template(
+                        [], context, state.get("ResultSelector")
+                    )
+
+                    # Parallel and Map states apply ResultPath to "raw input"
+                    event["data"] = merge_result(data, context, result, state)
+
+                    if state.get("End"):
+                        handle_terminal_state(state_type, event, id)
+                    else:
+                        error_type, error_message = self.change_state(
+                            state_machine, state_type, state.get("Next"), event
+                        )
+                        if error_type:
+                            handle_error(state, error_type, error_message)
+
+                    # (a no-op if handle_terminal_state already has)
+                    self.event_dispatcher.acknowledge(id)
+                    return
+
                 context_state = context["State"]
                 if "Branch" in context_state:
                     """
@@ -2830,6 +2857,9 @@ class StateEngine(object):
                 self.event_dispatcher.acknowledge(id)
             except IntrinsicFailure as e:
                 handle_error(state, "States.IntrinsicFailure", str(e))
+                self.event_dispatcher.acknowledge(id)
+            except ResultPathMatchFailure as e:
+                handle_error(state, "States.ResultPathMatchFailure", str(e))
                 self.event_dispatcher.acknowledge(id)
             except PathMatchFailure as e:
                 handle_error(state, "States.Runtime", str(e))
